@@ -50,9 +50,9 @@ func lookupCase(name string) caseFn {
 // mixes that the lock tables say are free of deadlocks (c25) / of unordered conflicting accesses (c26)
 func stressMixes(kind string) []string {
 	if kind == "c26" {
-		return []string{"tables routes", "tables clients", "tables policy-quiet", "server updates"}
+		return []string{"tables routes", "tables readers", "tables clients", "server api", "tables policy-quiet", "server updates"}
 	}
-	return []string{"tables routes", "tables clients", "tables policy-quiet", "tables teardown", "server updates", "server control"}
+	return []string{"tables routes", "tables readers", "tables clients", "tables policy-quiet", "tables teardown", "server updates", "server api", "server control"}
 }
 
 // ---------------------------------------------------------------- a counting client
@@ -213,6 +213,49 @@ func (p *pipeline) readOp(r *hx.RNG) {
 	}
 }
 
+// readAll does what the API server, the RIS and the CLI do with a dump: read every field of every route and path
+func readAll(rs []*route.Route) int {
+	n := 0
+	for i, r := range rs {
+		if r == nil {
+			continue
+		}
+		n += len(r.ToProto().Paths)
+		for _, p := range r.Paths() {
+			n += int(p.HiddenReason)
+			if i < 2 { // the textual forms are expensive; two routes per dump are enough to touch every field
+				n += len(p.String())
+			}
+		}
+		if i < 2 {
+			n += len(r.Print())
+		}
+	}
+	return n
+}
+
+// deepReadOp: dumps and lookups of all three table kinds followed by reading everything they returned
+func (p *pipeline) deepReadOp(r *hx.RNG) {
+	switch r.Intn(8) {
+	case 0:
+		readAll(p.lr.Dump())
+	case 1:
+		readAll(p.ins[r.Intn(len(p.ins))].Dump())
+	case 2:
+		readAll(p.outs[r.Intn(len(p.outs))].Dump())
+	case 3:
+		readAll([]*route.Route{p.lr.Get(pfx(r.Intn(nPfx)))})
+	case 4:
+		readAll(p.lr.LPM(pfx(r.Intn(nPfx))))
+	case 5:
+		readAll(p.ins[r.Intn(len(p.ins))].GetLonger(bnet.NewPfx(bnet.IPv4FromOctets(10, 0, 0, 0), 8).Dedup()))
+	case 6:
+		readAll([]*route.Route{p.outs[r.Intn(len(p.outs))].Get(pfx(r.Intn(nPfx)))})
+	case 7:
+		_ = len(p.outs[r.Intn(len(p.outs))].Print()) + len(p.lr.Print()) + len(p.lr.String())
+	}
+}
+
 func (p *pipeline) routeOp(r *hx.RNG) {
 	k := r.Intn(len(p.ins))
 	switch r.Intn(6) {
@@ -248,6 +291,23 @@ func stressTables(a args) string {
 				p.ins[r.Intn(len(p.ins))].ReplaceFilterChain(chainVariant(r.Intn(3)))
 			default:
 				p.readOp(r)
+			}
+		})
+	case "readers":
+		// API / CLI style readers (dump or lookup, then read every field) against route changes, import policy
+		// replacement and client registrations
+		workers(a, func(r *hx.RNG, w int) {
+			switch x := r.Intn(20); {
+			case x < 9:
+				p.routeOp(r)
+			case x < 10:
+				p.ins[r.Intn(len(p.ins))].ReplaceFilterChain(chainVariant(r.Intn(3)))
+			case x < 11:
+				c := &countClient{}
+				p.lr.RegisterWithOptions(c, routingtable.ClientOptions{MaxPaths: 2})
+				p.lr.Unregister(c)
+			default:
+				p.deepReadOp(r)
 			}
 		})
 	case "clients":
@@ -450,6 +510,36 @@ func stressServer(a args) string {
 				e.b.ReplaceImportFilterChain(e.v, e.peers[r.Intn(len(e.peers))], chainVariant(r.Intn(3)))
 			default:
 				_ = len(e.b.GetPeers())
+			}
+		})
+	case "api":
+		// what the BGP API server, the metrics service and the CLI do while UPDATEs are processed: DumpRIBIn /
+		// DumpRIBOut (GetRIBIn/GetRIBOut + Dump + ToProto), GetPeers, GetPeerConfig, metrics, Loc-RIB dumps
+		workers(a, func(r *hx.RNG, w int) {
+			k := r.Intn(len(e.peers))
+			switch x := r.Intn(20); {
+			case x < 9:
+				if !e.inject(r, w%len(e.peers)) {
+					failed.Add(1)
+				}
+			case x < 10:
+				e.b.ReplaceImportFilterChain(e.v, e.peers[k], chainVariant(r.Intn(3)))
+			case x < 13:
+				if rib := safeRIBIn(e, k); rib != nil {
+					readAll(rib.Dump())
+				}
+			case x < 15:
+				if rib := e.b.GetRIBOut(e.v, e.peers[k], packet.AFIIPv4, packet.SAFIUnicast); rib != nil {
+					readAll(rib.Dump())
+				}
+			case x < 17:
+				readAll(e.lr.Dump())
+			case x < 18:
+				e.b.Metrics()
+			case x < 19:
+				_ = len(e.b.GetPeers())
+			default:
+				_ = e.b.GetPeerConfig(e.v, e.peers[k]) != nil
 			}
 		})
 	case "control":
